@@ -366,3 +366,56 @@ pub fn c09_infbound() {
     kani::cover!(v.is_nan());
     kani::cover!(v == 5.0);
 }
+
+// ---------------------------------------------------------------------------------------------
+// C09.cap — through the REAL DefaultProblemData::new: right-hand sides at or above the bound that do
+// not sit in a nonnegative cone are capped at the bound (never dropped), whether or not the presolver
+// removed other rows; the reduced b is the user's b with the dropped rows deleted.
+// The module-level bound is stubbed to the constant 1e20 (a lazy_static atomic is not constant-propagated,
+// DESIGN.md 6.2.2) and the nonnegative rows are concrete so that the reduction itself is concrete
+// control flow; the second-order-cone rows of b and all of A are symbolic.
+// ---------------------------------------------------------------------------------------------
+pub fn stub_get_infinity() -> f64 {
+    1e20
+}
+
+fn cap_through_new(b0: f64, expect_dropped: bool) {
+    let b2: f64 = kani::any();
+    let b3: f64 = kani::any();
+    kani::assume(!b2.is_nan() && !b3.is_nan());
+    let b = [b0, 5.0, b2, b3];
+    let a = [small_f64(3), small_f64(3), small_f64(3), small_f64(3)];
+    let A = CscMatrix::<f64> { m: 4, n: 1, colptr: vec![0, 4], rowval: vec![0, 1, 2, 3], nzval: a.to_vec() };
+    let P = CscMatrix::<f64> { m: 1, n: 1, colptr: vec![0, 0], rowval: vec![], nzval: vec![] };
+    let cones = [SupportedConeT::NonnegativeConeT(2), SupportedConeT::SecondOrderConeT(2)];
+    let mut st = settings_f64();
+    st.presolve_enable = true;
+    st.equilibrate_enable = false;
+    let data = DefaultProblemData::<f64>::new(&P, &[1.0], &A, &b, &cones, &st);
+    let cap = |x: f64| if x < 1e20 { x } else { 1e20 };
+    if expect_dropped {
+        assert!(data.m == 3 && data.b.len() == 3 && data.A.m == 3, "one_nonnegative_row_dropped");
+        assert!(data.b[0] == 5.0, "kept_nonnegative_row_keeps_its_value");
+        assert!(data.b[1] == cap(b2) && data.b[2] == cap(b3), "rows_of_other_cones_are_capped_at_the_bound_also_when_rows_were_dropped");
+        assert!(data.A.nzval[0] == a[1] && data.A.nzval[1] == a[2] && data.A.nzval[2] == a[3], "reduced_A_is_A_with_the_dropped_row_deleted");
+    } else {
+        assert!(data.m == 4 && data.b.len() == 4, "nothing_dropped");
+        assert!(data.b[0] == b0 && data.b[1] == 5.0, "nonnegative_rows_kept");
+        assert!(data.b[2] == cap(b2) && data.b[3] == cap(b3), "rows_of_other_cones_are_capped_at_the_bound");
+    }
+    kani::cover!(b2 > 1e25 && b3 < 0.0, "a second-order-cone row above the bound");
+}
+
+#[kani::proof]
+#[kani::unwind(8)]
+#[kani::stub(clarabel::get_infinity, stub_get_infinity)]
+pub fn c09_cap_with_active_presolve() {
+    cap_through_new(1e30, true);
+}
+
+#[kani::proof]
+#[kani::unwind(8)]
+#[kani::stub(clarabel::get_infinity, stub_get_infinity)]
+pub fn c09_cap_without_reduction() {
+    cap_through_new(7.0, false);
+}
